@@ -63,6 +63,37 @@ func runCycle(c *cycleCase) (line, impl string, fails []*failure, labels []strin
 	if err != nil {
 		return "", "", nil, nil, err
 	}
+	// memory layout (alias.go): three cases in four get every byte slice of
+	// the font as adjacent sub-slices of one array with sentinels around, the
+	// way a caller who cut tables out of a larger buffer holds them; the value
+	// is the same, so the case line does not say which layout was used beyond
+	// the template seed
+	var callerMemory [][]byte
+	if !strings.HasPrefix(c.T.Name, "go:") {
+		// templates share glyph memory with the font they were cut from; the
+		// oracle fills unused capacity with sentinels, so the font must own
+		// all memory its slices can reach (a font fresh from sfnt.Read does)
+		f = deepCopyFont(f)
+	}
+	if c.T.Seed%4 != 0 {
+		f = deepCopyFont(f)
+		ar := rehome(f, c.T.Seed)
+		callerMemory = append(callerMemory, ar.buf)
+		labels = append(labels, "a:memory=shared-array")
+		if ar.odd > 0 {
+			labels = append(labels, "a:memory=shared-array,slice-length-not-multiple-of-4")
+		}
+	} else {
+		labels = append(labels, "a:memory=own-slices")
+	}
+	if o, ok := f.Outlines.(*glyf.Outlines); ok {
+		for _, b := range o.Tables {
+			if len(b)%4 != 0 {
+				labels = append(labels, "a:pass-through-table-length-not-multiple-of-4")
+				break
+			}
+		}
+	}
 	head := v.Line(v.Atom("cycle"), c.T.sx(), c.S.sx())
 	labels = append(labels, "a:tpl="+strings.SplitN(c.T.Name, ":", 2)[0], "a:cmap="+c.T.CMap)
 	if c.T.Layout != "-" {
@@ -99,7 +130,7 @@ func runCycle(c *cycleCase) (line, impl string, fails []*failure, labels []strin
 	if canon == "" {
 		labels = append(labels, "a:canonical")
 	}
-	res, fails := oracleValue(f)
+	res, fails := oracleValue(f, callerMemory...)
 	if perr != nil {
 		labels = append(labels, "a:oracle-only")
 		return "!" + head, "-", fails, labels, nil
